@@ -66,6 +66,44 @@ fn run_case(version: http::Version, host: Option<&str>, uri: &str, sni: Option<&
     }
 }
 
+/// One service instance (and a clone taken after its first use) serving two requests in a row: the verdict on
+/// the second request must be the verdict the same request gets from a fresh instance.
+fn run_after(first: (http::Version, Option<&str>, &str, Option<&str>), second: (http::Version, Option<&str>, &str, Option<&str>), use_clone: bool) -> Outcome {
+    let seen = std::sync::Arc::new(std::sync::Mutex::new(None::<bool>));
+    let seen2 = seen.clone();
+    let inner = tower::service_fn(move |req: http::Request<()>| {
+        let v = req.extensions().get::<TlsConnectionInfo>().map(|t| t.validated_server_name).unwrap_or(false);
+        *seen2.lock().unwrap() = Some(v);
+        async move { Ok::<_, Infallible>(http::Response::new(())) }
+    });
+    let mut svc = ValidateSNI.layer(inner);
+    let build = |(version, host, uri, sni): (http::Version, Option<&str>, &str, Option<&str>)| {
+        let mut b = http::Request::builder().version(version).uri(uri);
+        if let Some(h) = host {
+            b = b.header(http::header::HOST, h);
+        }
+        let mut req = b.body(()).unwrap();
+        req.extensions_mut().insert(TlsConnectionInfo { server_name: sni.map(|s| s.to_string()), ..TlsConnectionInfo::default() });
+        req
+    };
+    let r = std::panic::catch_unwind(std::panic::AssertUnwindSafe(|| {
+        let _ = svc.call(build(first)).now_or_never();
+        *seen.lock().unwrap() = None;
+        if use_clone {
+            let mut c = svc.clone();
+            c.call(build(second)).now_or_never()
+        } else {
+            svc.call(build(second)).now_or_never()
+        }
+    }));
+    match r {
+        Err(_) => Outcome::Panicked,
+        Ok(None) => Outcome::NotReady,
+        Ok(Some(Ok(_))) => Outcome::Forwarded { validated: seen.lock().unwrap().unwrap_or(false) },
+        Ok(Some(Err(_))) => Outcome::Rejected,
+    }
+}
+
 fn expected_forward(version: http::Version, host: Option<&str>, uri: &str, sni: Option<&str>) -> Option<bool> {
     let parsed: http::Uri = uri.parse().ok()?;
     let authority = parsed.authority().map(|a| a.as_str().to_string());
@@ -77,6 +115,15 @@ fn expected_forward(version: http::Version, host: Option<&str>, uri: &str, sni: 
 fn replay(path: &str) -> i32 {
     let doc: serde_json::Value = serde_json::from_str(&std::fs::read_to_string(path).expect("replay file")).expect("json");
     let rp = doc.get("replay").cloned().unwrap_or(doc);
+    if rp.get("engine").and_then(|x| x.as_str()) == Some("c20-pair") {
+        // the pair stage is small: re-run the whole check
+        let args = Args { id: "C20".into(), tier: crate::evidence::Tier::Quick, replay: None, extra: vec![] };
+        let rc = run(&args);
+        if rc == 1 {
+            println!("VIOLATION property=C20 replay={path}");
+        }
+        return rc;
+    }
     let version = match rp.get("version").and_then(|x| x.as_str()) {
         Some("HTTP/1.0") => http::Version::HTTP_10,
         Some("HTTP/2.0") => http::Version::HTTP_2,
@@ -215,6 +262,41 @@ pub fn run(args: &Args) -> i32 {
             }
         }
     }
+    // Histories: every ordered pair of a reduced grid through ONE service instance (and through a clone taken
+    // after its first use); the second request's verdict must not depend on the first (differential against a
+    // fresh instance, no hand-written expectation).
+    let mut pairs = 0u64;
+    {
+        let mut grid: Vec<(http::Version, Option<&str>, &str, Option<&str>)> = vec![];
+        for v in [http::Version::HTTP_11, http::Version::HTTP_2] {
+            for h in [None, Some("example.com"), Some("other.test")] {
+                for u in ["/", "https://example.com/"] {
+                    for sn in [None, Some("example.com"), Some("other.test"), Some("EXAMPLE.com")] {
+                        grid.push((v, h, u, sn));
+                    }
+                }
+            }
+        }
+        'outer: for &a in &grid {
+            for &b in &grid {
+                let fresh = run_case(b.0, b.1, b.2, b.3, true);
+                for use_clone in [false, true] {
+                    pairs += 1;
+                    let got = run_after(a, b, use_clone);
+                    if got != fresh {
+                        run.violation(
+                            format!("verdict-depends-on-earlier-request clone={use_clone}"),
+                            format!("after serving {a:?}, the same service instance{} gives {got:?} for {b:?}; a fresh instance gives {fresh:?}", if use_clone { " (cloned after first use)" } else { "" }),
+                            json!({"engine":"c20-pair","first":format!("{a:?}"),"second":format!("{b:?}"),"clone":use_clone}),
+                        );
+                        break 'outer;
+                    }
+                }
+            }
+        }
+    }
+    evaluations += pairs;
+    run.cov("request_pairs_through_one_instance", pairs);
     // Requests that did not arrive over TLS are outside the statement; they must merely not panic.
     for &version in &versions {
         for &host in &hosts {
